@@ -12,3 +12,14 @@ package tools
 //
 //@ func Filter
 //@   inline
+//
+// String helpers only compute a new string from their argument.
+//@ func Singularize
+//@   pure
+//@   modifies nothing
+//
+//@ func StringInListEqualFold
+//@   modifies nothing
+//@   ensures  result == (exists i: int :: 0 <= i && i < len(haystack) && eqfold(haystack[i], needle))
+//@   loop 0:
+//@     invariant none: forall i: int :: 0 <= i && i <= $i ==> !eqfold(haystack[i], needle)
